@@ -29,7 +29,9 @@ import time
 
 VERIF = os.path.dirname(os.path.dirname(os.path.abspath(__file__)))
 REPO = os.environ.get("VERIF_REPO", "/repo")
-WORK = os.path.join(VERIF, ".work")
+WORK = os.path.join(VERIF, ".work") if REPO == "/repo" else os.path.join(
+    VERIF, ".work", "alt-" + hashlib.sha1(REPO.encode()).hexdigest()[:8])
+ALT = REPO != "/repo"
 MODPATH = "github.com/tikv/client-go/v2"
 
 sys.path.insert(0, os.path.join(VERIF, "tools"))
@@ -371,8 +373,9 @@ def check(pid, tier, seed, replay=None, only=None):
                         violations.append(("race:" + hashlib.sha1(d["key"].encode()).hexdigest()[:10],
                                            "data race in anchored code: " + d["key"], {"report": d["first"]}, u["name"]))
     # ---- verdict
-    os.makedirs(os.path.join(VERIF, "replay"), exist_ok=True)
-    os.makedirs(os.path.join(VERIF, "evidence"), exist_ok=True)
+    outroot = WORK if ALT else VERIF
+    os.makedirs(os.path.join(outroot, "replay"), exist_ok=True)
+    os.makedirs(os.path.join(outroot, "evidence"), exist_ok=True)
     new, known_hit = [], {}
     for sig, msg, detail, uname in violations:
         if sig in known:
@@ -389,7 +392,7 @@ def check(pid, tier, seed, replay=None, only=None):
         if sig in seen_sig:
             continue
         seen_sig.add(sig)
-        path = os.path.join(VERIF, "replay", "%s-%s-%d-%d.json" % (pid, tier, seed, len(seen_sig)))
+        path = os.path.join(outroot, "replay", "%s-%s-%d-%d.json" % (pid, tier, seed, len(seen_sig)))
         with open(path, "w") as f:
             json.dump({"property": pid, "tier": tier, "seed": seed, "unit": uname, "sig": sig, "msg": msg, "detail": detail,
                        "rerun": "VERIF_SEED=%d tools/vcheck.py %s %s --only %s" % (seed, pid, tier, unit_of(uname, units))}, f, indent=1, default=str)
@@ -417,7 +420,7 @@ def check(pid, tier, seed, replay=None, only=None):
         cov["exhaustive_units"] = exhaustive
     ev = {"property_id": pid, "tier": tier, "seed": seed, "level": level, "coverage": cov,
           "assumptions": assumptions, "wall_s": round(time.time() - t0, 1), "violations": len(seen_sig)}
-    with open(os.path.join(VERIF, "evidence", pid + ".json"), "w") as f:
+    with open(os.path.join(outroot, "evidence", pid + ".json"), "w") as f:
         json.dump(ev, f, indent=1, default=str)
     for l in lines:
         print(l)
